@@ -132,6 +132,10 @@ def atlas_docs():
          "RegisteredPetB": {"allOf": [{"$ref": REF + "PetB"}, {"type": "object", "required": ["born"]}]},
          "PetB": obj({"id": {"type": "integer"}, "nickname": {"type": "string"}, "born": {"type": "string", "format": "date"}}, required=["id"]),
          "SiblingOfRegistered": {"allOf": [{"$ref": REF + "PetA"}, obj({"other": {"type": "integer"}})]},
+         # two $ref parents whose property names collide only AFTER snake-casing
+         "Hardware": obj({"serialNumber": {"type": "string"}}, required=["serialNumber"]),
+         "Inventory": obj({"serial_number": {"type": "string"}, "shelf": {"type": "integer"}}),
+         "Device": {"allOf": [{"$ref": REF + "Hardware"}, {"$ref": REF + "Inventory"}]},
          # a child that REDEFINES an inherited inline-enum property with a superset enum carrying a default
          "Animal": obj({"mood": {"type": "string", "enum": ["calm", "angry"]}, "legs": {"type": "integer"}}),
          "Cat": {"allOf": [{"$ref": REF + "Animal"}, {"type": "object", "properties": {"mood": {"type": "string", "enum": ["calm", "angry", "sleepy"], "default": "calm"}, "indoor": {"type": "boolean"}}}]}}
